@@ -1,10 +1,367 @@
-// Package c19: harness for property C19 (stub until built).
+// Package c19: genesis export/import of the custom modules, observed on the real application.
+//
+// One history = a fresh application driven through real messages (pools, positions, swaps,
+// gauge votes, blocks) and exported keeper setters (DA records, share-class and self-delegation
+// state, in-flight swap packets).  Then, for each of the eight custom modules: the raw KV store
+// is dumped, the real ExportGenesis is run (through the module manager, as app/export.go does),
+// a second application runs InitChain on the exported sections, and its store is dumped again.
+// Each (history, module) pair is one Coq case for Sys/C19Check.v.
 package c19
 
-import "fmt"
+import (
+	"bytes"
+	"encoding/json"
+	"fmt"
+	"sort"
 
-// Run generates n cases from seed, runs them on the real application and writes
-// cases_*.v and stats.json into outDir.
-func Run(seed int64, n int, outDir string) error {
-	return fmt.Errorf("c19: harness not built yet")
+	sdk "github.com/cosmos/cosmos-sdk/types"
+
+	"github.com/sunriselayer/sunrise/app"
+
+	"verifharness/apph"
+	"verifharness/emit"
+)
+
+// field tables, in the order of Sys/Genesis.v (the check compares the prefixes with the model's)
+type modTable struct {
+	name     string
+	prefixes []string
+	lost     map[int]bool
 }
+
+var tables = []modTable{
+	{"da", []string{"params/", "published_data/", "published_data_by_status_time/", "challenge_counts/", "fault_counts/", "proofs/", "invalidities/", "proof_deputies/"}, map[int]bool{3: true, 4: true, 6: true, 7: true}},
+	{"fee", []string{"params"}, nil},
+	{"liquidityincentive", []string{"params/", "epochs/", "epoch_id/", "gauges/", "votes/"}, nil},
+	{"liquiditypool", []string{"params/", "pools/", "pool_id/", "positions/", "position_id/", "positions_by_pool_id/", "positions_by_address/", "tick_info/", "accumulator/", "accumulator_position/"}, map[int]bool{7: true}},
+	{"selfdelegation", []string{"params/", "lockup_accounts/", "self_delegation_proxies/"}, map[int]bool{1: true, 2: true}},
+	{"shareclass", []string{"params/", "unbondings/", "unbondings_by_address/", "unbondings_by_completion_time/", "unbonding_id/", "reward_multiplier/", "users_last_reward_multiplier/", "last_reward_handling_time/"}, map[int]bool{1: true, 2: true, 3: true, 4: true, 5: true, 6: true, 7: true}},
+	{"swap", []string{"params/", "incoming_in_flight_packets/", "outgoing_in_flight_packets/"}, nil},
+	{"tokenconverter", []string{"params/", "self_delegation_proxies/"}, nil},
+}
+
+func moduleNames() []string {
+	out := make([]string, len(tables))
+	for i, t := range tables {
+		out[i] = t.name
+	}
+	return out
+}
+
+type kv struct{ K, V []byte }
+
+// dump returns every key/value of a module's store, in key order.
+func dump(a *app.App, ctx sdk.Context, name string) []kv {
+	key := a.GetKey(name)
+	if key == nil {
+		panic("no store key for module " + name)
+	}
+	it := ctx.KVStore(key).Iterator(nil, nil)
+	defer it.Close()
+	var out []kv
+	for ; it.Valid(); it.Next() {
+		out = append(out, kv{append([]byte{}, it.Key()...), append([]byte{}, it.Value()...)})
+	}
+	return out
+}
+
+// group splits a dump by the module's prefixes; keys under no prefix go to unknown.
+func group(t modTable, kvs []kv) (fields [][]kv, unknown []kv) {
+	fields = make([][]kv, len(t.prefixes))
+	for _, e := range kvs {
+		hit := -1
+		for i, p := range t.prefixes {
+			if bytes.HasPrefix(e.K, []byte(p)) {
+				if hit >= 0 {
+					panic("prefix table is not prefix-free")
+				}
+				hit = i
+			}
+		}
+		if hit < 0 {
+			unknown = append(unknown, e)
+		} else {
+			fields[hit] = append(fields[hit], e)
+		}
+	}
+	return
+}
+
+// wipe deletes every key of the module's store in ctx.
+func wipe(a *app.App, ctx sdk.Context, name string) {
+	st := ctx.KVStore(a.GetKey(name))
+	for _, e := range dump(a, ctx, name) {
+		st.Delete(e.K)
+	}
+}
+
+// interner maps the byte strings of one observation to integers; keys by rank (so that integer
+// order is byte order), values by first appearance.
+type interner struct {
+	keys   map[string]bool
+	rank   map[string]int
+	values map[string]int
+}
+
+func newInterner() *interner {
+	return &interner{keys: map[string]bool{}, values: map[string]int{}}
+}
+func (n *interner) addKey(k []byte) { n.keys[string(k)] = true }
+func (n *interner) seal() {
+	ks := make([]string, 0, len(n.keys))
+	for k := range n.keys {
+		ks = append(ks, k)
+	}
+	sort.Strings(ks)
+	n.rank = map[string]int{}
+	for i, k := range ks {
+		n.rank[k] = i + 1
+	}
+}
+func (n *interner) key(k []byte) string { return fmt.Sprint(n.rank[string(k)]) }
+func (n *interner) val(v []byte) string {
+	id, ok := n.values[string(v)]
+	if !ok {
+		id = len(n.values) + 1
+		n.values[string(v)] = id
+	}
+	return fmt.Sprint(id)
+}
+func (n *interner) store(kvs []kv) string {
+	xs := make([]string, len(kvs))
+	for i, e := range kvs {
+		xs[i] = emit.Tuple(n.key(e.K), n.val(e.V))
+	}
+	return emit.List(xs)
+}
+
+// observation of one module
+type obs struct {
+	mod                     int
+	before, after           [][]kv
+	unknownBefore, unknownA []kv
+	images                  []struct {
+		field int
+		key   []byte
+		img   []struct {
+			field int
+			e     kv
+		}
+	}
+	cdef map[int]kv
+	fail string
+}
+
+func byteList(s string) string { return emit.Bytes([]byte(s)) }
+
+func (o *obs) coq() string {
+	t := tables[o.mod]
+	n := newInterner()
+	for _, f := range o.before {
+		for _, e := range f {
+			n.addKey(e.K)
+		}
+	}
+	for _, f := range o.after {
+		for _, e := range f {
+			n.addKey(e.K)
+		}
+	}
+	for _, e := range o.unknownBefore {
+		n.addKey(e.K)
+	}
+	for _, e := range o.unknownA {
+		n.addKey(e.K)
+	}
+	for _, im := range o.images {
+		n.addKey(im.key)
+		for _, w := range im.img {
+			n.addKey(w.e.K)
+		}
+	}
+	for _, e := range o.cdef {
+		n.addKey(e.K)
+	}
+	n.seal()
+	pf := make([]string, len(t.prefixes))
+	for i, p := range t.prefixes {
+		pf[i] = byteList(p)
+	}
+	bf := make([]string, len(o.before))
+	for i, f := range o.before {
+		bf[i] = n.store(f)
+	}
+	var imgs []string
+	for _, im := range o.images {
+		ws := make([]string, len(im.img))
+		for i, w := range im.img {
+			ws[i] = emit.Tuple(fmt.Sprintf("%d%%nat", w.field), emit.Tuple(n.key(w.e.K), n.val(w.e.V)))
+		}
+		imgs = append(imgs, emit.Tuple(fmt.Sprintf("%d%%nat", im.field), n.key(im.key), emit.List(ws)))
+	}
+	var cds []string
+	var cfs []int
+	for f := range o.cdef {
+		cfs = append(cfs, f)
+	}
+	sort.Ints(cfs)
+	for _, f := range cfs {
+		e := o.cdef[f]
+		cds = append(cds, emit.Tuple(fmt.Sprintf("%d%%nat", f), emit.Tuple(n.key(e.K), n.val(e.V))))
+	}
+	after := "None"
+	if o.fail == "" {
+		af := make([]string, len(o.after))
+		for i, f := range o.after {
+			af[i] = n.store(f)
+		}
+		after = "(Some " + emit.Tuple(emit.List(af), n.store(o.unknownA)) + ")"
+	}
+	return fmt.Sprintf("{| go_module := %d; go_prefixes := %s; go_before := %s; go_unknown_before := %s; go_img := %s; go_cdef := %s; go_after := %s |}",
+		o.mod, emit.List(pf), emit.List(bf), n.store(o.unknownBefore), emit.List(imgs), emit.List(cds), after)
+}
+
+// observe exports the custom modules of h, imports them into a fresh application and returns one
+// observation per module.
+func observe(h *apph.H) ([]*obs, error) {
+	ctx := h.Ctx()
+	mods := moduleNames()
+	out := make([]*obs, len(tables))
+	for i, t := range tables {
+		o := &obs{mod: i, cdef: map[int]kv{}}
+		o.before, o.unknownBefore = group(t, dump(h.App, ctx, t.name))
+		if err := imagesOf(h, ctx, i, o); err != nil {
+			return nil, fmt.Errorf("%s: setter images: %w", t.name, err)
+		}
+		out[i] = o
+	}
+	// the real export, as app/export.go runs it (module manager, JSON)
+	var exported map[string]json.RawMessage
+	var experr error
+	func() {
+		defer func() {
+			if r := recover(); r != nil {
+				experr = fmt.Errorf("panic: %v", r)
+			}
+		}()
+		exported, experr = h.App.ModuleManager.ExportGenesisForModules(ctx, mods)
+	}()
+	if experr != nil {
+		for _, o := range out {
+			o.fail = "export: " + experr.Error()
+		}
+		return out, nil
+	}
+	// a fresh chain initialised from the exported sections
+	fresh, err := apph.NewInitChainOnly(apph.Options{NumAccounts: len(h.Accts), Mutate: func(gs map[string]json.RawMessage, _ *app.App) {
+		for _, m := range mods {
+			gs[m] = exported[m]
+		}
+	}})
+	if err != nil {
+		for _, o := range out {
+			o.fail = "init: " + err.Error()
+		}
+		return out, nil
+	}
+	defer fresh.Close()
+	fctx := fresh.InitChainCtx()
+	for i, t := range tables {
+		out[i].after, out[i].unknownA = group(t, dump(fresh.App, fctx, t.name))
+	}
+	return out, nil
+}
+
+// Run generates n cases (n/8 histories, eight modules each) and writes cases + stats into outDir.
+func Run(seed int64, n int, outDir string) error {
+	r := emit.NewRand(seed)
+	st := emit.NewStats("C19", seed,
+		"one case = one custom module of one application state reached by a generated history: raw store dump, real ExportGenesis (module manager), InitChain of a fresh application on the export, dump again, compared per prefix with Sys/Genesis.init(export). Non-trivial = the module had at least one entry under every prefix that a store uses; distinct by (module, number of entries per prefix)")
+	cf := &emit.CasesFile{Import: "Sys.C19Check", Runner: "run", Type: "c19_obs"}
+	hist := (n + len(tables) - 1) / len(tables)
+	if hist < 1 {
+		hist = 1
+	}
+	for k := 0; k < hist; k++ {
+		richness := 2
+		if k == 0 {
+			richness = 0 // corpus: the untouched default genesis
+		} else if k == 1 {
+			richness = 3 // corpus: every prefix populated
+		} else if r.Chance(1, 3) {
+			richness = 3
+		} else if r.Chance(1, 5) {
+			richness = 1
+		}
+		h := apph.New(apph.Options{NumAccounts: 5})
+		log, err := history(h, r, richness)
+		if err != nil {
+			h.Close()
+			return fmt.Errorf("history %d: %w", k, err)
+		}
+		os, err := observe(h)
+		h.Close()
+		if err != nil {
+			return fmt.Errorf("history %d: %w", k, err)
+		}
+		for _, o := range os {
+			t := tables[o.mod]
+			cf.Add(o.coq())
+			st.Evaluations++
+			counts := make([]int, len(o.before))
+			lostNonEmpty := []string{}
+			full := true
+			for i, f := range o.before {
+				counts[i] = len(f)
+				if len(f) == 0 && !(t.name == "tokenconverter" && i == 1) {
+					full = false
+				}
+				if t.lost[i] && len(f) > 0 {
+					lostNonEmpty = append(lostNonEmpty, t.prefixes[i])
+				}
+			}
+			changed := []string{}
+			if o.fail == "" {
+				for i := range o.before {
+					if !sameKVs(o.before[i], o.after[i]) {
+						changed = append(changed, t.prefixes[i])
+					}
+				}
+			}
+			info := map[string]any{"history": k, "richness": richness, "module": t.name, "entries_per_prefix": counts,
+				"unexported_nonempty": lostNonEmpty, "prefixes_that_differ_after_import": changed, "ops": log}
+			if o.fail != "" {
+				info["failure"] = o.fail
+				st.Count(t.name + "/export-or-import-failed")
+			}
+			st.Info(info)
+			st.Count(t.name + "/observed")
+			if len(changed) == 0 && o.fail == "" {
+				st.Count(t.name + "/round-trip-identical")
+			} else {
+				st.Count(t.name + "/round-trip-differs")
+			}
+			if full {
+				st.Nontriv(fmt.Sprintf("%s/%v", t.name, counts))
+				st.Sample(map[string]any{"module": t.name, "entries_per_prefix": counts, "differs": changed})
+			}
+		}
+	}
+	if _, err := cf.Write(outDir, "cases", 40); err != nil {
+		return err
+	}
+	return st.Write(outDir)
+}
+
+func sameKVs(a, b []kv) bool {
+	if len(a) != len(b) {
+		return false
+	}
+	for i := range a {
+		if !bytes.Equal(a[i].K, b[i].K) || !bytes.Equal(a[i].V, b[i].V) {
+			return false
+		}
+	}
+	return true
+}
+
